@@ -67,12 +67,42 @@ Definition InvClosed (l0 : ledger) (a : auction) (l : ledger) : Prop :=
        (forall d, l AUC1 d = l0 AUC1 d - (if d =? lot_denom a then sell a else 0)) /\
        (forall d, l COLL d = l0 COLL d)).
 
+(* generation-1 auction wound up by the emergency shutdown: NO winner; every bidder account - the
+   standing bidder included - is exactly where it was when the auction started, in every denom; the
+   module holds nothing of the bid denom for the auction any more; the lot of a surplus auction went
+   from the module back to the collector and onto the collector's net-fee record (a debt auction has
+   no lot before it is minted: nothing moves, nothing is minted) *)
+Definition InvEsm (l0 : ledger) (a : auction) (l : ledger) : Prop :=
+  status a = 3 /\ is_v1 (var a) = true /\
+  match bidder a, bids a with
+  | Some w, (w', _) :: _ => w = w' /\ 0 <= w
+  | None, [] => True
+  | _, _ => False
+  end /\
+  (forall acct d, 0 <= acct -> l acct d = l0 acct d) /\
+  (forall d, l MOD d = l0 MOD d - lot_back a d) /\
+  (forall d, l COLL d = l0 COLL d + lot_back a d) /\
+  (forall d, l NF d = l0 NF d + lot_back a d).
+
+Definition Inv3 (l0 : ledger) (a : auction) (l : ledger) : Prop :=
+  InvOpen l0 a l \/ InvClosed l0 a l \/ InvEsm l0 a l.
+
 Definition Inv (l0 : ledger) (s : state) : Prop :=
-  bid_denom (fst s) <> lot_denom (fst s) /\
-  (InvOpen l0 (fst s) (snd s) \/ InvClosed l0 (fst s) (snd s)).
+  bid_denom (fst s) <> lot_denom (fst s) /\ Inv3 l0 (fst s) (snd s).
 
 Definition valid_op (o : op) : Prop :=
-  match o with Bid who _ _ _ _ _ => 0 <= who | Tick _ _ => True end.
+  match o with Bid who _ _ _ _ _ => 0 <= who | Tick _ _ => True | TickEsm _ _ => True end.
+
+Lemma ended_false a : ended a = false <-> status a <> 2 /\ status a <> 3.
+Proof. unfold ended. lia. Qed.
+
+Lemma open_not_ended l0 a l : InvOpen l0 a l -> ended a = false.
+Proof. intros ([H|H] & _); apply ended_false; lia. Qed.
+
+Lemma inv3_not_ended l0 a l : Inv3 l0 a l -> ended a = false -> InvOpen l0 a l.
+Proof.
+  intros [HO|[[Hc _]|[Hc _]]] En; [exact HO| |]; apply ended_false in En; lia.
+Qed.
 
 Lemma inv_init v bd ld lot b0 now fac d bs l0 :
   bd <> ld -> 0 <= b0 -> Inv l0 (init v bd ld lot b0 now fac d bs, l0).
@@ -151,13 +181,13 @@ Proof.
 Qed.
 
 Lemma bid_inv l0 a l who denom amt now xd xa a' l' :
-  bid_denom a <> lot_denom a -> InvOpen l0 a l \/ InvClosed l0 a l -> 0 <= who ->
+  bid_denom a <> lot_denom a -> Inv3 l0 a l -> 0 <= who ->
   bid a l who denom amt now xd xa = Ok (a', l') ->
   InvOpen l0 a l /\ InvOpen l0 a' l' /\ bid_denom a' = bid_denom a /\ lot_denom a' = lot_denom a.
 Proof.
   intros Hd HI Hw. unfold bid.
-  destruct (Z.eqb_spec (status a) 2) as [E2|N2]; [discriminate|].
-  destruct HI as [HO|[Hc _]]; [|contradiction].
+  destruct (ended a) eqn:En; [discriminate|].
+  pose proof (inv3_not_ended l0 a l HI En) as HO.
   destruct (bid_check a denom amt xd xa) as [[[pay s'] b']| |] eqn:C; try discriminate.
   intros S. destruct HO as (Hst & Hbuy & Hrest).
   destruct (bid_check_amounts _ _ _ _ _ _ _ _ C Hbuy) as [Hp Hb'].
@@ -192,8 +222,8 @@ Proof.
     rewrite Hv; (split; [|split; [|try discriminate]]).
   - (* V1S *) rewrite S1, S0, S, Hl. unfold MOD, TM in *. eqb_cases; lia.
   - intros acct d Ha. rewrite S1, S0, S, Hl. unfold MOD, TM in *. eqb_cases; lia.
-  - (* V1D *) rewrite S. destruct (Z.gtb_spec (sell a) 0); rewrite ?mint_spec, Hl; unfold MOD, COLL in *; eqb_cases; lia.
-  - intros acct d Ha. rewrite S. destruct (Z.gtb_spec (sell a) 0); rewrite ?mint_spec, Hl; unfold MOD, COLL in *; eqb_cases; lia.
+  - (* V1D *) rewrite mint_spec, S. destruct (Z.gtb_spec (sell a) 0); rewrite ?mint_spec, Hl; unfold MOD, COLL, NF in *; eqb_cases; lia.
+  - intros acct d Ha. rewrite mint_spec, S. destruct (Z.gtb_spec (sell a) 0); rewrite ?mint_spec, Hl; unfold MOD, COLL, NF in *; eqb_cases; lia.
   - (* V2S *) rewrite S2, S1, S0, S, Hl. unfold MOD, TM, AUC1 in *. eqb_cases; lia.
   - intros acct d Ha. rewrite S2, S1, S0, S, Hl. unfold MOD, TM, AUC1 in *. eqb_cases; lia.
   - (* V2S: the lot source is out of exactly the lot, the collector is untouched *)
@@ -213,14 +243,14 @@ Proof.
 Qed.
 
 Lemma tick_inv l0 a l now tm a' l' :
-  bid_denom a <> lot_denom a -> InvOpen l0 a l \/ InvClosed l0 a l ->
+  bid_denom a <> lot_denom a -> Inv3 l0 a l ->
   tick a l now tm = Ok (a', l') ->
-  (InvOpen l0 a' l' \/ InvClosed l0 a' l') /\ bid_denom a' = bid_denom a /\ lot_denom a' = lot_denom a.
+  Inv3 l0 a' l' /\ bid_denom a' = bid_denom a /\ lot_denom a' = lot_denom a.
 Proof.
   intros Hd HI. unfold tick.
-  destruct (Z.eqb_spec (status a) 2) as [E2|N2].
+  destruct (ended a) eqn:En.
   { intros E. injection E as <- <-. auto. }
-  destruct HI as [HO|[Hc _]]; [|contradiction].
+  pose proof (inv3_not_ended l0 a l HI En) as HO. unfold Inv3.
   match goal with |- context[if negb ?c then _ else _] => destruct c end; cbn [negb].
   2:{ intros E. injection E as <- <-. auto. }
   destruct (bidder a) as [w|] eqn:Hbd.
@@ -229,12 +259,63 @@ Proof.
     unfold restart, set_times. destruct (var a); split; reflexivity.
 Qed.
 
+(* the block hook under the emergency shutdown: a generation-1 auction is wound up at once, whatever
+   the time, with or without a standing bid; the standing bidder is refunded in full *)
+Lemma tick_esm_inv l0 a l now tm a' l' :
+  bid_denom a <> lot_denom a -> Inv3 l0 a l ->
+  tick_esm a l now tm = Ok (a', l') ->
+  Inv3 l0 a' l' /\ bid_denom a' = bid_denom a /\ lot_denom a' = lot_denom a.
+Proof.
+  intros Hd HI. unfold tick_esm.
+  destruct (ended a) eqn:En.
+  { intros E. injection E as <- <-. auto. }
+  pose proof (inv3_not_ended l0 a l HI En) as HO.
+  destruct (var a) eqn:Hv;
+    try (intros T; exact (tick_inv l0 a l now tm a' l' Hd HI T)).
+  - (* V1S *)
+    destruct HO as (Hst & Hbuy & Hsb & Hbids & Hl). unfold paid in Hl. unfold lift.
+    destruct (bidder a) as [w|] eqn:Hbd.
+    + destruct (send l MOD w (bid_denom a) (buy a)) as [l1| |] eqn:S1; try discriminate.
+      apply send_spec in S1. destruct S1 as (_ & _ & _ & S1).
+      destruct (send l1 MOD COLL (lot_denom a) (sell a)) as [l2| |] eqn:S2; try discriminate.
+      apply send_spec in S2. destruct S2 as (_ & _ & _ & S2).
+      intros E. injection E as <- <-. split; [|split; reflexivity]. right; right.
+      destruct (bids a) as [|[w' x] rest] eqn:Hbs; [contradiction|]. destruct Hbids as [<- Hw].
+      unfold InvEsm, lot_back; cbn [set_esm_closed status var bidder bids lot_denom sell]. rewrite Hv, Hbd, Hbs.
+      split; [reflexivity|]. split; [reflexivity|]. split; [auto|].
+      split; [|split; [|split]]; intros; rewrite mint_spec, S2, S1, Hl; unfold MOD, COLL, NF in *; eqb_cases; lia.
+    + destruct (send l MOD COLL (lot_denom a) (sell a)) as [l1| |] eqn:S1; try discriminate.
+      apply send_spec in S1. destruct S1 as (_ & _ & _ & S1).
+      intros E. injection E as <- <-. split; [|split; reflexivity]. right; right.
+      destruct (bids a) as [|[w' x] rest] eqn:Hbs; [|contradiction].
+      unfold InvEsm, lot_back; cbn [set_esm_closed status var bidder bids lot_denom sell]. rewrite Hv, Hbd, Hbs.
+      split; [reflexivity|]. split; [reflexivity|]. split; [auto|].
+      split; [|split; [|split]]; intros; rewrite mint_spec, S1, Hl; unfold MOD, COLL, NF in *; eqb_cases; lia.
+  - (* V1D *)
+    destruct HO as (Hst & Hbuy & Hsb & Hbids & Hl). unfold paid in Hl. unfold lift.
+    destruct (bids a) as [|[w' x] rest] eqn:Hbs.
+    + destruct (bidder a) as [w|] eqn:Hbd; [contradiction|].
+      intros E. injection E as <- <-. split; [|split; reflexivity]. right; right.
+      unfold InvEsm, lot_back; cbn [set_esm_closed status var bidder bids lot_denom sell]. rewrite Hv, Hbd, Hbs.
+      split; [reflexivity|]. split; [reflexivity|]. split; [auto|].
+      split; [|split; [|split]]; intros; rewrite Hl; unfold MOD, COLL, NF in *; eqb_cases; lia.
+    + destruct (bidder a) as [w|] eqn:Hbd; [|contradiction]. destruct Hbids as [<- Hw].
+      destruct (send l MOD w (bid_denom a) (buy a)) as [l1| |] eqn:S1; try discriminate.
+      apply send_spec in S1. destruct S1 as (_ & _ & _ & S1).
+      intros E. injection E as <- <-. split; [|split; reflexivity]. right; right.
+      unfold InvEsm, lot_back; cbn [set_esm_closed status var bidder bids lot_denom sell]. rewrite Hv, Hbd, Hbs.
+      split; [reflexivity|]. split; [reflexivity|]. split; [auto|].
+      split; [|split; [|split]]; intros; rewrite S1, Hl; unfold MOD, COLL, NF in *; eqb_cases; lia.
+Qed.
+
 Lemma step_inv l0 s o s' : Inv l0 s -> valid_op o -> step s o = Ok s' -> Inv l0 s'.
 Proof.
-  destruct s as [a l], s' as [a' l']. intros [Hd HI] Hv. cbn [fst snd] in *. destruct o as [who denom amt now xd xa|now tm]; cbn [step fst snd].
+  destruct s as [a l], s' as [a' l']. intros [Hd HI] Hv. cbn [fst snd] in *. destruct o as [who denom amt now xd xa|now tm|now tm]; cbn [step fst snd].
   - intros B. destruct (bid_inv l0 a l who denom amt now xd xa a' l' Hd HI Hv B) as (_ & HO & E1 & E2).
     split; cbn [fst snd]; [rewrite E1, E2; exact Hd|left; exact HO].
   - intros T. destruct (tick_inv l0 a l now tm a' l' Hd HI T) as (HI' & E1 & E2).
+    split; cbn [fst snd]; [rewrite E1, E2; exact Hd|exact HI'].
+  - intros T. destruct (tick_esm_inv l0 a l now tm a' l' Hd HI T) as (HI' & E1 & E2).
     split; cbn [fst snd]; [rewrite E1, E2; exact Hd|exact HI'].
 Qed.
 
@@ -254,11 +335,13 @@ Qed.
 Lemma inv_custody l0 s : Inv l0 s ->
   snd s MOD (bid_denom (fst s)) - l0 MOD (bid_denom (fst s)) = held (fst s).
 Proof.
-  destruct s as [a l]. intros [Hd [(Hst & Hbuy & Hsb & Hbids & Hl)|(Hc & w & x & rest & Hb & _ & Hw & Hm & _ & _)]]; cbn [fst snd] in *.
-  - unfold held. destruct (Z.eqb_spec (status a) 2); [lia|].
+  destruct s as [a l]. intros [Hd [(Hst & Hbuy & Hsb & Hbids & Hl)|[(Hc & w & x & rest & Hb & _ & Hw & Hm & _ & _)|(Hc & Hv1 & _ & _ & Hm & _)]]]; cbn [fst snd] in *.
+  - unfold held. rewrite (open_not_ended l0 a l (conj Hst (conj Hbuy (conj Hsb (conj Hbids Hl))))).
     rewrite Hl. unfold paid. unfold MOD. destruct (bidder a) as [w|]; [|eqb_cases; lia].
     destruct (bids a) as [|[w' ?] ?]; [contradiction|]. destruct Hbids as [<- Hw]. eqb_cases; lia.
-  - unfold held. rewrite Hc. cbn. lia.
+  - unfold held, ended. rewrite Hc. cbn. lia.
+  - unfold held, ended. rewrite Hc. cbn. rewrite Hm. unfold lot_back.
+    destruct (var a); try lia. destruct (Z.eqb_spec (bid_denom a) (lot_denom a)); [contradiction|lia].
 Qed.
 
 Lemma inv_holds_custody l0 s : Inv l0 s ->
@@ -272,8 +355,8 @@ Lemma inv_holds_source l0 s : Inv l0 s ->
   holds_C11_source (fst s) (l0 AUC1 (lot_denom (fst s))) (l0 COLL (lot_denom (fst s)))
                    (snd s AUC1 (lot_denom (fst s))) (snd s COLL (lot_denom (fst s))) = true.
 Proof.
-  destruct s as [a l]. intros [Hd [(Hst & Hbuy & Hsb & Hbids & Hl)|(Hc & w & x & rest & Hb & _ & Hw & Hm & _ & Hsrc)]]; cbn [fst snd] in *;
-    unfold holds_C11_source; destruct (var a) eqn:Hv; try reflexivity.
+  destruct s as [a l]. intros [Hd [(Hst & Hbuy & Hsb & Hbids & Hl)|[(Hc & w & x & rest & Hb & _ & Hw & Hm & _ & Hsrc)|(Hc & Hv1 & _)]]]; cbn [fst snd] in *;
+    unfold holds_C11_source; destruct (var a) eqn:Hv; try reflexivity; try discriminate.
   - destruct (Z.eqb_spec (status a) 2); [lia|]. rewrite !Hl. unfold paid, MOD, AUC1, COLL.
     destruct (bidder a) as [w|]; [|eqb_cases; lia].
     destruct (bids a) as [|[w' ?] ?]; [contradiction|]. destruct Hbids as [<- Hw]. eqb_cases; lia.
@@ -283,7 +366,7 @@ Qed.
 (* an accepted bid: it improves on the standing one, and the outbid bidder is made whole in the
    same step *)
 Lemma bid_facts l0 a l who denom amt now xd xa a' l' :
-  bid_denom a <> lot_denom a -> InvOpen l0 a l \/ InvClosed l0 a l -> 0 <= who ->
+  bid_denom a <> lot_denom a -> Inv3 l0 a l -> 0 <= who ->
   bid a l who denom amt now xd xa = Ok (a', l') ->
   holds_C11_improves a amt = true /\
   (forall p, bidder a = Some p -> p <> who ->
@@ -291,8 +374,8 @@ Lemma bid_facts l0 a l who denom amt now xd xa a' l' :
   bids a' = (who, amt) :: bids a /\ bidder a' = Some who.
 Proof.
   intros Hd HI Hw. unfold bid.
-  destruct (Z.eqb_spec (status a) 2) as [E2|N2]; [discriminate|].
-  destruct HI as [HO|[Hc _]]; [|contradiction].
+  destruct (ended a) eqn:En; [discriminate|].
+  pose proof (inv3_not_ended l0 a l HI En) as HO.
   destruct (bid_check a denom amt xd xa) as [[[pay s'] b']| |] eqn:C; try discriminate.
   intros S. pose proof HO as (Hst & Hbuy & Hsb & Hbids & Hl).
   destruct (bid_check_amounts _ _ _ _ _ _ _ _ C Hbuy) as [Hp Hb'].
@@ -311,4 +394,92 @@ Proof.
   unfold holds_C11_improves. intros H Hb. rewrite Hb in H.
   destruct (change (factor a) (if reverse (var a) then sell a else buy a)) as [c|]; [|discriminate].
   exists c. split; [reflexivity|]. destruct (reverse (var a)); lia.
+Qed.
+
+(* ---------------- the emergency-shutdown end ---------------- *)
+Lemma inv_esm_end l0 s : Inv l0 s -> status (fst s) = 3 -> InvEsm l0 (fst s) (snd s).
+Proof.
+  intros [_ [([H|H] & _)|[(H & _)|HE]]] Hs; try lia. exact HE.
+Qed.
+
+(* the executable predicates that judge the implementation's observations after an emergency-shutdown
+   close follow from the invariant *)
+Lemma inv_holds_esm l0 s : Inv l0 s -> status (fst s) = 3 -> forall acct, 0 <= acct ->
+  holds_C11_esm (fst s) acct (l0 acct (bid_denom (fst s))) (l0 acct (lot_denom (fst s)))
+                (snd s acct (bid_denom (fst s))) (snd s acct (lot_denom (fst s))) = true.
+Proof.
+  intros HI Hs acct Ha. destruct (inv_esm_end l0 s HI Hs) as (_ & _ & _ & Hl & _).
+  unfold holds_C11_esm. rewrite !Hl, Hs by assumption. lia.
+Qed.
+
+Lemma inv_holds_esm_lot l0 s : Inv l0 s -> status (fst s) = 3 ->
+  holds_C11_esm_lot (fst s) (l0 MOD (lot_denom (fst s))) (l0 COLL (lot_denom (fst s))) (l0 NF (lot_denom (fst s)))
+                    (snd s MOD (lot_denom (fst s))) (snd s COLL (lot_denom (fst s))) (snd s NF (lot_denom (fst s))) = true.
+Proof.
+  intros HI Hs. destruct (inv_esm_end l0 s HI Hs) as (_ & _ & _ & _ & HM & HC & HN).
+  unfold holds_C11_esm_lot. rewrite HM, HC, HN, Hs. lia.
+Qed.
+
+(* the hook under the emergency shutdown on an open generation-1 auction: the auction is wound up
+   (status 3) and the standing bidder has its whole standing payment back in the same step *)
+Lemma tick_esm_facts l0 a l now tm a' l' :
+  bid_denom a <> lot_denom a -> Inv3 l0 a l -> ended a = false -> is_v1 (var a) = true ->
+  tick_esm a l now tm = Ok (a', l') ->
+  status a' = 3 /\ bids a' = bids a /\ bidder a' = bidder a /\
+  forall p, bidder a = Some p ->
+    0 <= p /\ l' p (bid_denom a) = l p (bid_denom a) + buy a /\ l' p (bid_denom a) = l0 p (bid_denom a).
+Proof.
+  intros Hd HI En Hv1 T.
+  pose proof (inv3_not_ended l0 a l HI En) as HO.
+  destruct (tick_esm_inv l0 a l now tm a' l' Hd HI T) as (HI' & _ & _).
+  assert (Hs : status a' = 3 /\ bids a' = bids a /\ bidder a' = bidder a).
+  { revert T; revert Hv1. unfold tick_esm, lift. rewrite En.
+    destruct (var a); cbn [is_v1]; intros Hv1; try discriminate Hv1;
+      repeat match goal with
+             | |- context[match bidder a with _ => _ end] => destruct (bidder a) eqn:?
+             | |- context[match bids a with _ => _ end] => destruct (bids a) eqn:?
+             | |- context[match send ?l ?f ?t ?d ?x with _ => _ end] => destruct (send l f t d x)
+             end; try discriminate; intros E; injection E as <- <-; repeat split; cbn; congruence. }
+  destruct Hs as (Hs & Hbs & Hbd). repeat (split; [assumption|]).
+  intros p Hp. destruct HI' as [([H|H] & _)|[(H & _)|(_ & _ & _ & Hl' & _)]]; try lia.
+  destruct HO as (_ & _ & _ & Hbids & Hl). rewrite Hp in Hbids.
+  destruct (bids a) as [|[w' x] rest]; [contradiction|]. destruct Hbids as [<- Hw].
+  split; [exact Hw|]. rewrite (Hl' p _ Hw), (Hl p). unfold paid. rewrite Hp. unfold MOD. eqb_cases; lia.
+Qed.
+
+(* the hook under the emergency shutdown cannot fail on an open generation-1 auction whose module
+   account was not overdrawn when the auction started and (surplus) still holds the lot: the custody
+   invariant covers the refund *)
+Lemma send_ok l from to d x : 0 <= x <= l from d -> exists l', send l from to d x = LOk l'.
+Proof.
+  intros H. unfold send. destruct (Z.ltb_spec x 0); [lia|].
+  destruct (Z.eqb_spec x 0); [eauto|]. destruct (Z.ltb_spec (l from d) x); [lia|eauto].
+Qed.
+
+Lemma tick_esm_progress l0 a l now tm :
+  bid_denom a <> lot_denom a -> InvOpen l0 a l -> is_v1 (var a) = true ->
+  0 <= l0 MOD (bid_denom a) -> (var a = V1S -> 0 <= sell a <= l0 MOD (lot_denom a)) ->
+  exists s', tick_esm a l now tm = Ok s'.
+Proof.
+  intros Hd HO Hv1 Hm Hlot. pose proof (open_not_ended l0 a l HO) as En.
+  destruct HO as (Hst & Hbuy & Hsb & Hbids & Hl). unfold paid in Hl.
+  unfold tick_esm, lift. rewrite En.
+  destruct (var a) eqn:Hv; try discriminate Hv1.
+  - specialize (Hlot eq_refl).
+    destruct (bidder a) as [w|] eqn:Hbd.
+    + destruct (bids a) as [|[w' x] rest]; [contradiction|]. destruct Hbids as [<- Hw].
+      destruct (send_ok l MOD w (bid_denom a) (buy a)) as [l1 S1].
+      { rewrite Hl, ?Hbd. unfold MOD in *. eqb_cases; lia. }
+      rewrite S1. apply send_spec in S1. destruct S1 as (_ & _ & _ & S1).
+      destruct (send_ok l1 MOD COLL (lot_denom a) (sell a)) as [l2 S2].
+      { rewrite S1, Hl, ?Hbd. unfold MOD in *. eqb_cases; lia. }
+      rewrite S2. eauto.
+    + destruct (send_ok l MOD COLL (lot_denom a) (sell a)) as [l1 S1].
+      { rewrite Hl, ?Hbd. unfold MOD in *. eqb_cases; lia. }
+      rewrite S1. eauto.
+  - destruct (bids a) as [|[w' x] rest]; [eauto|].
+    destruct (bidder a) as [w|] eqn:Hbd; [|contradiction]. destruct Hbids as [<- Hw].
+    destruct (send_ok l MOD w (bid_denom a) (buy a)) as [l1 S1].
+    { rewrite Hl, ?Hbd. unfold MOD in *. eqb_cases; lia. }
+    rewrite S1. eauto.
 Qed.
